@@ -1,4 +1,5 @@
-(* C08 driver. case: "<mode><configuration letters> <init> <events>" (syntax: see harness/legs_c08.go).
+(* C08 driver. case: "<mode><configuration letters> <init> <events>" (syntax: see harness/legs_c08.go; `o<f>` = action
+   AOpen, `o<f>=<content>` = action AOpenWith: the document is opened with a text of its own).
    Configuration: n = the client sends no PluginPath (the deployed IsInDir does not depend on it: same instance toyA),
    f = two workspace folders (p q are workspace files: instance toyA_all).
    Answer line: <model>\t<spec>\t<classes>
@@ -48,6 +49,7 @@ let c08_action (ev : string) : action =
       let (f, t) = c08_split_eq (String.sub it 1 (String.length it - 1)) in (it.[0], f, t))
       (String.split_on_char '+' raw) in
   match kind with
+  | 'o' when String.contains rest '=' -> let (f, t) = c08_split_eq rest in AOpenWith (f, tx t)
   | 'o' -> AOpen (fst (c08_split_eq rest))
   | 'c' -> let (f, t) = c08_split_eq rest in AChange (f, tx t)
   | 's' -> ASave (fst (c08_split_eq rest))
@@ -108,7 +110,8 @@ let c08_view (l : (file * err list) list) : string =
 let c08_class_name (k : n) : string =
   match int_of_n k with
   | 1 -> "outside_file" | 2 -> "live_cleared" | 3 -> "unhidden" | 4 -> "close_revert"
-  | 5 -> "watched_dirty" | 6 -> "deleted_require" | 7 -> "empty_shortcut" | i -> "class" ^ string_of_int i
+  | 5 -> "watched_dirty" | 6 -> "deleted_require" | 7 -> "empty_shortcut" | 8 -> "open_text"
+  | i -> "class" ^ string_of_int i
 
 let c08_parse (line : string) =
   match split_ws line with
@@ -134,7 +137,8 @@ let c08_line (fx : fixes) (line : string) : string =
   let ks = List.sort_uniq compare (List.map c08_class_name (toy_classes fx ind (Obj.magic dk) h)) in
   model ^ "\t" ^ spec ^ "\t" ^ (if ks = [] then "-" else String.concat "," ks)
 
-(* `deployed` (Model/Events.v) = the repairs that are in /repo now *)
+(* `deployed` (Model/Events.v) = the repairs that are in /repo now (all eight: the last one is the didOpen repair,
+   fixes/C02-didopen-analysed.diff; `round3` = the code before it) *)
 let () = register "c08.history" (c08_line deployed)
 let () = register "c08.raw" (c08_line deployed)
 (* watched notifications naming several files *)
@@ -147,11 +151,15 @@ let () = register "c08.anntype" (c08_line deployed)
 let () = register "c08.annraw" (c08_line deployed)
 (* configurations of DirManager.IsInDir: no PluginPath option, two workspace folders *)
 let () = register "c08.indir" (c08_line deployed)
-(* the same history against the model with all repairs switched on / with those of round 1 / round 2 only / with none (not
-   deciding legs; used by hand to validate a repair diff against a patched or an old copy of the code) *)
+(* documents opened with a text that is not the file's text (restored unsaved buffers) *)
+let () = register "c08.opentext" (c08_line deployed)
+(* the same history against the model with all repairs switched on / with those of round 1 / round 2 / round 3 (= all but
+   the didOpen repair) only / with none (not deciding legs; used by hand to validate a repair diff against a patched or an
+   old copy of the code) *)
 let () = register "c08.history_fixed" (c08_line all_fix)
 let () = register "c08.history_round1" (c08_line round1)
 let () = register "c08.history_round2" (c08_line round2)
+let () = register "c08.history_round3" (c08_line round3)
 let () = register "c08.history_unfixed" (c08_line no_fix)
 
 let () = main ()
